@@ -111,16 +111,44 @@ def wiring(chk, cc, qa, tier, rng):
     if bad:
         replay_wiring(chk, cc, rng, bad[0])
     # QHA interface forwarding
+    # the stand-in carries opaque objects for the computed fields and, for the requested pressures, what the real qha Calculator builds from
+    # its settings (qha.tools.arange(P_MIN, NTV, DELTA_P) converted to Ry/bohr^3) together with those settings, P_MIN != 0 included --
+    # the axis qha itself converts to and range-checks against
+    import qha.tools
+    from qha.unit_conversion import gpa_to_ry_b3
+    bad_fw = None
+
     class _Q:
         pass
-    qq = _Q()
-    for a in ("desired_pressures", "v_tp_bohr3", "p_tv_au", "temperature_array", "finer_volumes_bohr3"):
-        setattr(qq, a, object())
-    ok = (qa.QHAPressureBaseInterface(qq).p_array is qq.desired_pressures and qa.QHAPressureBaseInterface(qq).volumes is qq.v_tp_bohr3
-          and qa.QHAVolumeBaseInterface(qq).pressures is qq.p_tv_au and qa.QHAVolumeBaseInterface(qq).v_array is qq.finer_volumes_bohr3)
-    chk.obligation("QHA adapters forward desired_pressures / v_tp_bohr3 / p_tv_au / finer_volumes_bohr3", "unsat" if ok else "sat", kind="wiring")
-    if not ok:
-        chk.violation("qha-adapter:forwarding", "QHA pressure/volume base interface forwards the wrong field", {})
+    for p_min, dp, ntv in ((0.0, 0.5, 4), (6.0, 0.25, 5), (-2.0, 1.0, 3)):
+        qq = _Q()
+        qq.settings = dict(P_MIN=p_min, DELTA_P=dp, NTV=ntv, DELTA_P_SAMPLE=dp, T_MIN=0.0, DT=100.0, NT=3, DT_SAMPLE=100.0)
+        qq.desired_pressures_gpa = qha.tools.arange(p_min, ntv, dp)
+        qq.desired_pressures = gpa_to_ry_b3(qq.desired_pressures_gpa)
+        for a in ("v_tp_bohr3", "p_tv_au", "temperature_array", "finer_volumes_bohr3"):
+            setattr(qq, a, object())
+        try:
+            want_p = numpy.asarray(qq.desired_pressures, dtype=float)
+            got_p = numpy.asarray(qa.QHAPressureBaseInterface(qq).p_array, dtype=float)
+            if got_p.shape != want_p.shape or not numpy.allclose(got_p, want_p, rtol=1e-12, atol=0):
+                bad_fw = "pressure_base.p_array is %s (Ry/bohr^3) for P_MIN=%g GPa, DELTA_P=%g, NTV=%d; the pressures qha converts to are %s" % (
+                    got_p.tolist(), p_min, dp, ntv, want_p.tolist())
+            elif not (qa.QHAPressureBaseInterface(qq).volumes is qq.v_tp_bohr3 and qa.QHAVolumeBaseInterface(qq).pressures is qq.p_tv_au
+                      and qa.QHAVolumeBaseInterface(qq).v_array is qq.finer_volumes_bohr3):
+                bad_fw = "QHA pressure/volume base interface forwards the wrong field"
+        except AttributeError as e:
+            if "_Q" in str(e):
+                chk.harness_error("C06 forwarding twin: the stand-in lacks an attribute the adapter reads (%s)" % e)
+                break
+            bad_fw = "QHA base interfaces with P_MIN=%g raise %s: %s" % (p_min, type(e).__name__, e)
+        except Exception as e:
+            bad_fw = "QHA base interfaces with P_MIN=%g raise %s: %s" % (p_min, type(e).__name__, e)
+        if bad_fw:
+            break
+    chk.obligation("QHA adapters forward desired_pressures (P_MIN = 0, 6, -2 GPa) / v_tp_bohr3 / p_tv_au / finer_volumes_bohr3", "unsat" if not bad_fw else "sat",
+                   kind="wiring")
+    if bad_fw:
+        chk.violation("qha-adapter:forwarding", bad_fw, {})
 
 
 def replay_wiring(chk, cc, rng, what):
